@@ -162,3 +162,11 @@ func (v *VerifQueue) Stop() {
 func VerifContainsSequence(base, top, seq uint8) bool {
 	return containsSequence(base, top, seq)
 }
+
+// TimeoutManager returns the timeout manager the queue was built with, so that
+// a stress can make the calls that the connection's loops (Sent, Received) and
+// the application (SetSendTimeout, SetRecvTimeout) make on it while the queue
+// is in use.
+func (v *VerifQueue) TimeoutManager() *TimeoutManager {
+	return v.q.timeoutManager
+}
